@@ -1,1 +1,2 @@
+import Dawgs.Props.C12
 import Dawgs.Props.C16
